@@ -243,8 +243,9 @@ func monitor(rep *emit.Report, c *caseRun) {
 			// C03: a beacon the aggregator appends while handling a partial (no sync stream involved) was
 			// recovered from valid partials of at least a threshold of distinct indices of the live group,
 			// the node's own released partial included -- copies of it coming back from the network do not count
-			if s.ev.Kind == "part" && !s.syncOnAfter && len(s.obs.Syncs) == 0 && p.Round > 0 && !reached[int64(p.Round)] {
-				rep.Fail("C03-beacon-from-fewer-than-threshold", fmt.Sprintf("round %d was stored while handling a partial although fewer than the threshold (%d) of distinct live members had contributed a valid partial for it", p.Round, thr), in)
+			noSync := !s.syncOnAfter && (i == 0 || !c.steps[i-1].syncOnAfter) // no peer answers sync requests: every Put comes from the aggregator
+			if (s.ev.Kind == "part" && !s.syncOnAfter && len(s.obs.Syncs) == 0 || s.ev.Kind != "part" && s.ev.Kind != "syncmode" && noSync) && p.Round > 0 && !reached[int64(p.Round)] {
+				rep.Fail("C03-beacon-from-fewer-than-threshold", fmt.Sprintf("round %d was stored (event %s, no sync stream involved) although fewer than the threshold (%d) of distinct live members had contributed a valid partial for it", p.Round, s.ev.Kind, thr), in)
 			}
 			// C02: gap-free, written once
 			if int64(p.Round) != lastRound+1 && !(p.Round == 0 && lastRound >= 0) {
